@@ -92,7 +92,7 @@ def main():
         stats['detected'] += 1 if (c.get('detected') or any(det.get('checks', {}).get(o, {}).get('detected') for o in (m.get('also_run') or []))) else 0
         stats['initially_missed'] += 1 if m.get('initially_missed') else 0
         stats['anticipated'] += 1 if (m.get('note') or '').find('before this change was evaluated') >= 0 else 0
-    out.append('\nTotals: %d seeded changes kept over eight rounds (round 1: one per property; round 2: two; rounds 3 to 7: up to three, with prompts steering towards degenerate shapes / symmetric reader-writer mistakes / state left for the next call, then type-width-layout changes / shared helpers / call-order interactions, then secondary entry points / error paths and clean-up / hidden shared state, then commits a maintainer would make for another reason: performance fast paths and caches / modernisation and integer-type clean-ups / well-meant robustness and tolerance changes, then - adversarially - breakage that ordinary testing practice would miss: specific data values, scale, the environment, long or specific histories, rarely observed outputs; and a last, short round 8 of one change for each of the twenty properties, steered towards two cooperating sites, an object used again after a refused call, wrap-around arguments, several items in one call and what a failure in the middle leaves behind - by then the sub-agents largely re-invented changes already kept: the C03, C04, C06, C10, C12 and C18 proposals of that round were the same edit at the same site as S03p, S04g/S04k, S06a/S06d/S06p, S20e, S12a/S12b/S12l and S18c/S18h/S18m and were not kept a second time; of the fourteen kept, thirteen were reported at first evaluation and one, S08r, led to the quick tier of C08 enumerating every height -8..8; a second part of round 8 asked, for the eight properties whose quick tier runs in a second or two, for changes that are right on tiny inputs and wrong on moderately larger ones: five kept (S08s, S09s, S12r, S16q, S18q), three duplicates of S10m, S20a and S08m dropped, and one miss, S12r, cured by a long source whose first NUL is at offset 1000 in C12); duplicates of earlier changes were not kept. %d are reported by the quick check of the property they break on the current tree (a few that need gigabytes of memory by the thorough check, said in their rows). %d of them were missed when first evaluated and led to the strengthening named in their row; for %d more the check was extended from the description of the change before it was evaluated (said in the row). Every cured miss was re-run; the rows show the final run.\n\n' % (stats['total'], stats['detected'], stats['initially_missed'], stats['anticipated']))
+    out.append('\nTotals: %d seeded changes kept over eight rounds (round 1: one per property; round 2: two; rounds 3 to 7: up to three, with prompts steering towards degenerate shapes / symmetric reader-writer mistakes / state left for the next call, then type-width-layout changes / shared helpers / call-order interactions, then secondary entry points / error paths and clean-up / hidden shared state, then commits a maintainer would make for another reason: performance fast paths and caches / modernisation and integer-type clean-ups / well-meant robustness and tolerance changes, then - adversarially - breakage that ordinary testing practice would miss: specific data values, scale, the environment, long or specific histories, rarely observed outputs; and a last, short round 8 of one change for each of the twenty properties, steered towards two cooperating sites, an object used again after a refused call, wrap-around arguments, several items in one call and what a failure in the middle leaves behind - by then the sub-agents largely re-invented changes already kept: the C03, C04, C06, C10, C12 and C18 proposals of that round were the same edit at the same site as S03p, S04g/S04k, S06a/S06d/S06p, S20e, S12a/S12b/S12l and S18c/S18h/S18m and were not kept a second time; of the fourteen kept, thirteen were reported at first evaluation and one, S08r, led to the quick tier of C08 enumerating every height -8..8; a second part of round 8 asked, for the eight properties whose quick tier runs in a second or two, for changes that are right on tiny inputs and wrong on moderately larger ones: five kept (S08s, S09s, S12r, S16q, S18q), three duplicates of S10m, S20a and S08m dropped, and two misses cured: S12r by a long source whose first NUL is at offset 1000 in C12, S18q by a 21-member volume (name table beyond 256 bytes, three padding bytes) in C18); duplicates of earlier changes were not kept. %d are reported by the quick check of the property they break on the current tree (a few that need gigabytes of memory by the thorough check, said in their rows). %d of them were missed when first evaluated and led to the strengthening named in their row; for %d more the check was extended from the description of the change before it was evaluated (said in the row). Every cured miss was re-run; the rows show the final run.\n\n' % (stats['total'], stats['detected'], stats['initially_missed'], stats['anticipated']))
     rp = os.path.join(VERIF, 'mutants', 'results.json')
     if os.path.exists(rp):
         res = json.load(open(rp))
